@@ -110,6 +110,7 @@ def resOf (cls : Exc → Nat) : Option Exc → Pool.Res
 inductive Event where
   | submit
   | waitFirst (c : List Nat)
+  | timeout
   | waitAll
   | exit (r : Pool.Res)
   | interrupt (c : Nat)
@@ -132,6 +133,9 @@ def step (P : Params) (s : State) (ev : Event) : Option State :=
     match ev with
     | .submit => if s.interrupted = none then liftPool P s .submit else none
     | .waitFirst c => if s.interrupted = none then liftPool P s (.waitFirst c) else none
+    | .timeout =>
+      -- the main thread's clock reading at the loop head says `timeout` has elapsed (only if one was given)
+      if s.interrupted = none ∧ P.timeout.isSome = true then liftPool P s .timeout else none
     | .waitAll => if s.interrupted = none then liftPool P s .waitAll else none
     | .exit r =>
       match s.interrupted with
